@@ -312,7 +312,7 @@ def eval_phase(rp, rng=None):
 _SCOUNT = [0]
 
 
-def make_singular(rng, tier, idx):
+def make_singular(rng, tier, idx, real_diag=False):
     D = int(rng.integers(2, 9))
     F = int(rng.integers(2, 33 if tier == 'thorough' else 13))
     which = str(rng.choice(['souden', 'wmwf']))
@@ -321,6 +321,8 @@ def make_singular(rng, tier, idx):
     nsing = int(rng.integers(1, F + 1)) if rng.random() < 0.25 else int(rng.integers(1, max(2, F // 2 + 1)))
     bins = sorted(int(b) for b in rng.choice(F, nsing, replace=False))
     cls = str(rng.choice(['zero', 'zero', 'zerorow', 'rankdef', 'rankdef']))
+    if real_diag:
+        cls = ['zero', 'zerorow'][idx % 2]
     for f in bins:
         if cls == 'zero':
             m = int(rng.integers(0, 3))
@@ -339,7 +341,7 @@ def make_singular(rng, tier, idx):
             else:
                 a = crandn(rng, D, r)
             Pn[f] = a @ herm(a)
-    if cls in ('zero', 'zerorow') and _SCOUNT[0] % 4 == 1:
+    if cls in ('zero', 'zerorow') and (_SCOUNT[0] % 4 == 1 or real_diag):
         # spatially white (uncorrelated) noise model: a REAL diagonal noise PSD, float64 typed, with silent bins
         Pn = np.stack([np.diag(rng.uniform(0.5, 2.0, D)) for _ in range(F)])
         for f in bins:
@@ -461,6 +463,8 @@ def cases(rng, tier):
         out.append(make_phase(rng, tier, i))
     for i in range(2 * n):
         out.append(make_singular(rng, tier, i))
+    for i in range(4 if tier == 'quick' else 16):
+        out.append(make_singular(rng, tier, i, real_diag=True))
     return out
 
 
